@@ -69,6 +69,7 @@ def run(ctx):
         for crec in classes:
             check_class(ctx, facts, cfg, crec, mrole)
         check_publish_last(ctx, facts, cfg)
+        check_power_of_two(ctx, facts, cfg)
 
 
 def check_class(ctx, facts, cfg, crec, mrole):
@@ -449,3 +450,72 @@ def check_publish_last(ctx, facts, cfg):
         site = "log_statement<%s>:publish-last" % ",".join(f.rec.get("targs", [])[:2])
         ctx.ob("C01.R3a", site, ok,
                "header and arguments are encoded before finish_and_commit_write on every path and nothing is written through the buffer afterwards", fn=f)
+
+
+def check_power_of_two(ctx, facts, cfg):
+    """R5d: next_power_of_two can only return a power of two (mask = capacity - 1 relies on it)"""
+    from rules.common import branches_on_call, tnode, other
+    fs = facts.need("quill::detail::next_power_of_two", cfg, floor=2)
+    for f in fs:
+        g = f.g
+        T = (f.rec.get("targs") or ["?"])[0]
+        n = f.rec["params"][0]["did"]
+        decls = f.var_decls()
+        pb = [(b, t, c) for (b, t, c) in branches_on_call(f, r"::is_power_of_two$") if any(x["k"] == "DeclRefExpr" and x.get("did") == n for x in walk(c))]
+        ok = True
+        kinds = []
+        for r in g.return_nodes():
+            v = strip(g.node_ast(r).get("val"), casts=True)
+            cv = const_val(v)
+            vid = var_ref(v)
+            if cv is not None and vid != n:
+                good = cv > 0 and (cv & (cv - 1)) == 0
+                kinds.append("const %s" % cv)
+            elif vid == n:
+                good = bool(pb) and not g.exists_path([g.entry_node], [r], avoid_edges=[(b, t) for (b, t, c) in pb])
+                kinds.append("n when is_power_of_two(n)")
+            elif vid is not None and vid in decls:
+                init = decls[vid].get("init")
+                asg = [x for x in f.assignments_to_var(vid) if x["op"] == "="]
+                shifts = [x for x in f.walk() if x["k"] == "CompoundAssignOperator" and var_ref(x["lhs"]) == vid]
+                good = const_val(init) == 1 and not asg and bool(shifts) and \
+                    all((x["op"] == "<<=" and const_val(x["rhs"]) == 1) or (x["op"] == "*=" and const_val(x["rhs"]) == 2) for x in shifts) and \
+                    not [x for x in f.walk() if x["k"] == "UnaryOperator" and x["op"] in ("++", "--") and var_ref(x["sub"]) == vid]
+                kinds.append("1 << k")
+            else:
+                good = False
+                kinds.append("?")
+            ok = ok and good
+        ctx.ob("C01.R5d", "next_power_of_two<%s>:returns-power-of-two" % T, ok and bool(kinds),
+               "every value next_power_of_two can return is a power of two by construction (%s)" % ", ".join(kinds), fn=f)
+        # the doubling loop stops as soon as result >= n
+        loops = [x for x in f.walk() if x["k"] == "WhileStmt"]
+        okl = False
+        for lp in loops:
+            nc = norm_cmp(lp["cond"])
+            c = strip(lp["cond"])
+            if nc and nc[0] == "<" and isnode(c) and c["k"] == "BinaryOperator":
+                small, big = (c["lhs"], c["rhs"]) if c["op"] in ("<", "<=") else (c["rhs"], c["lhs"])
+                okl = var_ref(big) == n and var_ref(small) is not None and var_ref(small) != n
+        ctx.ob("C01.R5d", "next_power_of_two<%s>:not-smaller-than-request" % T, okl,
+               "doubling continues while result < n: the result is the first power of two that is >= n (never smaller than requested)", fn=f)
+    ip = facts.need("quill::detail::is_power_of_two", cfg)[0]
+    rets = [ip.g.node_ast(r) for r in ip.g.return_nodes()]
+    ok = len(rets) == 1
+    if ok:
+        from rules.common import flatten
+        parts = flatten(rets[0]["val"], "&&")
+        p0 = ip.rec["params"][0]["did"]
+        nz = any(norm_cmp(x) and norm_cmp(x)[0] == "!=" and "0" in norm_cmp(x)[1:] and any(y["k"] == "DeclRefExpr" and y.get("did") == p0 for y in walk(x)) for x in parts)
+        bit = False
+        for x in parts:
+            nc = norm_cmp(x)
+            if nc and nc[0] == "==" and "0" in nc[1:]:
+                for y in walk(x):
+                    if y["k"] == "BinaryOperator" and y["op"] == "&":
+                        a, b = strip(y["lhs"], casts=True), strip(y["rhs"], casts=True)
+                        for (u, v) in ((a, b), (b, a)):
+                            if var_ref(u) == p0 and isnode(v) and v["k"] == "BinaryOperator" and v["op"] == "-" and var_ref(v["lhs"]) == p0 and const_val(v["rhs"]) == 1:
+                                bit = True
+        ok = nz and bit and len(parts) == 2
+    ctx.ob("C01.R5d", "is_power_of_two:definition", ok, "is_power_of_two(n) is n != 0 && (n & (n - 1)) == 0", fn=ip)
